@@ -67,6 +67,9 @@ func applyReal(pl netty.Pipeline, o op, inst []netty.Handler) {
 	case "last":
 		pl.AddLast(hs...)
 	case "at":
+		// "look at position p, then insert there": any lookup state a pipeline may keep between calls is
+		// left pointing at the insertion position
+		_ = pl.ContextAt(o.Pos)
 		pl.AddHandler(o.Pos, hs...)
 	}
 }
@@ -151,7 +154,15 @@ func checkStructure(pl netty.Pipeline, inst []netty.Handler, m []int) (string, s
 			return "lastindexof", fmt.Sprintf("LastIndexOf(h%d)=%d, model %d (list %v)", id, got, last, want)
 		}
 	}
+	// far end first, then ascending: a lookup must not depend on the lookups before it
+	var order []int
+	for i := len(want); i >= -1; i-- {
+		order = append(order, i)
+	}
 	for i := -1; i <= len(want); i++ {
+		order = append(order, i)
+	}
+	for _, i := range order {
 		c := pl.ContextAt(i)
 		if i < 0 || i >= len(want) {
 			if c != nil {
